@@ -72,18 +72,18 @@ CHECKS = {
             {"pkg": "v2", "entries": ["VerifC10Own"], "params": {"N": 2, "KEYS": 3}},
             {"pkg": "v2", "entries": ["VerifC10Own"], "params": {"N": 3, "M": 2, "FAMS": 1}},
             {"pkg": "v2", "entries": ["VerifC10Own"], "params": {"N": 2, "M": 3, "FAMS": 1}},
-            {"pkg": "v2", "entries": ["VerifC10Ops"], "params": {"OPS": 3, "N": 2, "MAXIDX": 3}},
-            {"pkg": "v2", "entries": ["VerifC10Ops"], "params": {"OPS": 2, "N": 2, "MAXIDX": 3, "SPELL": 1}},
+            {"pkg": "v2", "entries": ["VerifC10Ops"], "params": {"OPS": 3, "N": 2, "MAXIDX": 3}, "samples": 50000},
+            {"pkg": "v2", "entries": ["VerifC10Ops"], "params": {"OPS": 2, "N": 2, "MAXIDX": 3, "SPELL": 1}, "samples": 50000},
             {"pkg": "v2", "entries": ["VerifC10ObjOps"], "params": {"OPS": 2}},
             {"pkg": "v2", "entries": ["VerifC10ObjOps"], "params": {"OPS": 2, "ARR": 1, "PATHS": 12}},
             {"pkg": "v2", "entries": ["VerifC09Long"], "params": {"N": 2}},
         ],
         "thorough": [
             {"pkg": "v2", "entries": ["VerifC10Own"], "params": {"N": 3, "FAMS": 1}},
-            {"pkg": "v2", "entries": ["VerifC10Own"], "params": {"N": 2, "KEYS": 6}},
-            {"pkg": "v2", "entries": ["VerifC10Ops"], "params": {"OPS": 4, "N": 2, "MAXIDX": 3}},
+            {"pkg": "v2", "entries": ["VerifC10Own"], "params": {"N": 2, "KEYS": 4}},
+            {"pkg": "v2", "entries": ["VerifC10Ops"], "params": {"OPS": 4, "N": 2, "MAXIDX": 3}, "samples": 50000, "timeout": 6000},
             {"pkg": "v2", "entries": ["VerifC10Ops"], "params": {"OPS": 5, "N": 1, "MAXIDX": 1, "WRAPS": 1}},
-            {"pkg": "v2", "entries": ["VerifC10Ops"], "params": {"OPS": 3, "N": 2, "MAXIDX": 3, "SPELL": 1}},
+            {"pkg": "v2", "entries": ["VerifC10Ops"], "params": {"OPS": 3, "N": 2, "MAXIDX": 2, "SPELL": 1, "WRAPS": 1}, "samples": 50000},
             {"pkg": "v2", "entries": ["VerifC10ObjOps"], "params": {"OPS": 3}},
         ],
         "covers": ["c10.own", "c10.ops.applied", "c10.ops.rejected", "c10.objops.applied", "c10.objops.notapplied", "c09.long"],
